@@ -15,6 +15,9 @@ CONSTANTS
   CraftToks = {}
   MaxPresent = 2
   Calls = {"exchange"}
+  HealRounds = 0
+  HealDt = 250
+  Bound = 0
   PropsOn <- P_HS
   Export = FALSE
   ExportAll = FALSE
